@@ -475,6 +475,10 @@ class _FakeSocket:
                     # an exchange hook may make this answer late (virtual time)
                     self._rx_delay = float(getattr(self.bus, "next_answer_delay", 0) or 0)
                     self.bus.next_answer_delay = 0
+                    slow = getattr(self.bus, "slow_cmds", None)
+                    if slow and len(apdu) > 1 and (apdu[1] in slow or "*" in slow):
+                        # a slow device: every answer to that command takes that long
+                        self._rx_delay = float(slow.get(apdu[1], slow.get("*")))
                 self._rx += struct.pack(">I", len(d)) + bytes(d) + struct.pack(">H", sw)
         return len(b)
 
